@@ -393,3 +393,49 @@ class ERISymmetry:
                 M.true("eri_sym/%s/shape" % "".join(map(str, p)), back.shape == ref.shape, str(back.shape))
                 for idx in np.ndindex(*ref.shape):
                     M.eq("eri_sym/%s/out%s" % ("".join(map(str, p)), tag(idx)), back[idx], ref[idx])
+
+
+class BoysFunction:
+    """BOUNDED (float): the real PointChargeIntegral.boys_func against F_m(T) = int_0^1 t^(2m) exp(-T t^2) dt at
+    50 digits, m = 0..12, T from 0 to beyond 1e4 (dense between 10 and 60 where implementations switch regimes).
+    The deductive kernels are proved for any function satisfying this contract."""
+
+    function = "gbasis.integrals.point_charge.PointChargeIntegral.boys_func"
+    fp = True
+    fp_only = True
+    bounded = True
+    fp_tol = 1e-11
+
+    def fp_shapes(self, tier):
+        return [dict(block=b) for b in range(4)]
+
+    shapes = fp_shapes
+
+    def run(self, shape, M):
+        if M.symbolic:
+            return
+        import mpmath
+
+        boys = M.mods["gbasis.integrals.point_charge"].PointChargeIntegral.boys_func
+        rng = M.sample_rng
+        b = shape["block"]
+        if b == 0:
+            Ts = [0.0, 1e-12, 1e-8, 1e-4, 1e-2, 0.1, 0.5, 1.0, 2.0, 5.0] + [rng.uniform(0, 10) for _ in range(10)]
+        elif b == 1:
+            Ts = [10 + 0.5 * k for k in range(0, 100)] + [rng.uniform(10, 60) for _ in range(20)]
+        elif b == 2:
+            Ts = [60, 80, 100, 150, 200, 300, 500, 700, 1000, 2000, 5000, 1e4, 2e4, 1e5] + [rng.uniform(60, 2000) for _ in range(10)]
+        else:
+            Ts = [float(np.exp(rng.uniform(np.log(1e-6), np.log(1e4)))) for _ in range(40)]
+        mp = mpmath.mp.clone()
+        mp.dps = 40
+        ms = np.arange(13)
+        got = boys(ms[:, None], np.array(Ts)[None, :])
+        worst = (0, None)
+        for i, m in enumerate(ms):
+            for j, T in enumerate(Ts):
+                ref = mp.hyp1f1(m + mp.mpf(1) / 2, m + mp.mpf(3) / 2, -mp.mpf(T)) / (2 * int(m) + 1)
+                err = abs(mp.mpf(float(got[i, j])) - ref) / ref
+                if err > worst[0]:
+                    worst = (err, (int(m), T))
+        M.true("boys/relative-error-below-1e-11", worst[0] < 1e-11, "worst relative error %s at (m, T) = %s" % (mpmath.nstr(worst[0], 5), worst[1]))
